@@ -14,7 +14,7 @@ package udp
 //@      && u.Length == (8 + len(f.payload)) % 65536
 //@ pred ethhdr(e *layers.Ethernet, r *scan.Request) = fresh(e) && e.SrcMAC == r.SrcMAC && e.DstMAC == r.DstMAC && e.EthernetType == 2048
 //@ func (*PacketFiller).Fill
-//@   props C05 C11 C17 C01 C02 C19 C07
+//@   props C05 C11 C17 C01 C02 C19 C07 C13
 //@   observe rand.Intn, SetNetworkLayerForChecksum, gopacket.SerializeLayers
 //@   entry row cksumerr: [call rand.Intn(65535) as (id0) ; call rand.Intn(28232) as (sp0) ; call SetNetworkLayerForChecksum(bind_ck, bind_n) as (ce)] when ce != nil && ret == ce -> exit
 //@   entry row vpn:   [call rand.Intn(65535) as (id0) ; call rand.Intn(28232) as (sp0) ; call SetNetworkLayerForChecksum(bind_ck, bind_n) as (ce) ; call gopacket.SerializeLayers(packet, bind_opt, bind_ls) as (se)]
@@ -54,7 +54,7 @@ package udp
 //@   ensures len(f.payload) == len(payload) && fresh(backing(f.payload)) && (forall i int :: 0 <= i && i < len(payload) ==> f.payload[i] == payload[i])
 // constructor: defaults (TTL 64, protocol UDP, don't-fragment, no payload), then the options in order, nothing else
 //@ func NewPacketFiller
-//@   props C05 C01 C02 C11 C17 C19 C07
+//@   props C05 C01 C02 C11 C17 C19 C07 C13
 //@   observe o
 //@   entry row init:  [] -> loop 0
 //@   loop 0 row apply: [call o(bind_x)] when fresh(x) -> continue
@@ -69,7 +69,7 @@ package udp
 
 // the scan method is the plain composition of its three parts: each role is forwarded unchanged
 //@ func (*ScanMethod).Packets
-//@   props C01 C07 C05 C11 C13 C16 C19 C12
+//@   props C01 C07 C05 C11 C13 C16 C19 C12 C02 C17
 //@   observe Packets
 //@   entry row forward: [call Packets(recv.PacketSource, _, _) as (c)] when ret == c -> exit
 //@ func (*ScanMethod).ProcessPacketData
